@@ -55,7 +55,7 @@ CLAIMED = {
 }
 
 CLAIMED['C19'] = dict(
-    text='Tiling logic of the highlighter under the parsers\' offset contract: transplants of append_span / skip_ahead / highlight_word_piece / the token loop body / highlight_program on a duck-typed highlighter whose span list checks the invariant incrementally. One inductive step per word-piece kind (11 kinds, nested quoted sequences and command substitutions via the induction hypothesis) and per token, plus the frame of highlight_program: for every token / piece layout with in-order, in-range offsets the spans are ordered, contiguous, non-empty and end exactly at the end of the line. Whole-line runs with 1-2 tokens are in the thorough tier.',
+    text='Tiling logic of the highlighter under the parsers\' offset contract: transplants of append_span / skip_ahead / highlight_word_piece / the token loop body / highlight_program on a duck-typed highlighter whose span list checks the invariant incrementally. One inductive step per word-piece kind (11 kinds, nested quoted sequences and command substitutions via the induction hypothesis) and per token, plus the frame of highlight_program: for every token / piece layout with in-order, in-range offsets the spans are ordered, contiguous, non-empty and end exactly at the end of the line. Whole-line runs with 0-2 tokens compose the steps through the word-piece contract.',
     note='Outside: the offsets the tokenizer and word::parse actually produce (PEG / tokenizer: not encodable), multi-byte text (character vs byte offsets come from the tokenizer), termination of the parsers. Lines are ASCII stand-ins.',
     ref='9')
 
